@@ -5,6 +5,7 @@ mod gen;
 mod gen2;
 mod gen3;
 mod gen4;
+mod gen5;
 mod isolate;
 mod model;
 mod oracle;
